@@ -86,9 +86,12 @@ class Analysis:
                     k = self.kind(s.value, func, types)
                     if k:
                         for t in s.targets:
-                            for n in ast.walk(t):
-                                if isinstance(n, ast.Name) and isinstance(t, ast.Name):
-                                    types[n.id] = k
+                            if isinstance(t, ast.Name):
+                                types[t.id] = k
+                            elif isinstance(t, ast.Tuple) and isinstance(k, tuple) and k[0] == 'T' and len(k) - 1 == len(t.elts):
+                                for tt, kk in zip(t.elts, k[1:]):
+                                    if isinstance(tt, ast.Name) and kk is not None:
+                                        types[tt.id] = kk
                     # chained: self._seen = seen = set()
                 elif isinstance(s, ast.AugAssign) and isinstance(s.target, ast.Name):
                     k = self.kind(s.value, func, types)
@@ -111,6 +114,11 @@ class Analysis:
             return None
         if isinstance(node, (ast.Set, ast.SetComp)):
             return SET
+        if isinstance(node, ast.Tuple) and node.elts and not any(isinstance(e, ast.Starred) for e in node.elts):
+            ks = tuple(self.kind(e, func, types) for e in node.elts)
+            if any(k is not None for k in ks):
+                return ('T',) + ks
+            return None
         if isinstance(node, ast.Name):
             return types.get(node.id)
         if isinstance(node, ast.Attribute):
@@ -224,7 +232,9 @@ class Analysis:
         for n in walk(func.body):
             if isinstance(n, ast.Return) and n.value is not None:
                 k = self.kind(n.value, func, types)
-                if k == SET and returns is None:
+                if isinstance(k, tuple):
+                    returns = k
+                elif k == SET and returns is None:
                     returns = SET
                 elif k in (TSEQ, HEAP):
                     returns = TSEQ
@@ -262,7 +272,7 @@ class Analysis:
             k = self.kind(n, func, types)
             if isinstance(n, ast.Call) and not isinstance(n.func, ast.Attribute):
                 self._ordered_args(func, n, types, via)
-            if k is None or k == ORD:
+            if k is None or k == ORD or isinstance(k, tuple):
                 continue
             if isinstance(n, ast.Name) and isinstance(n.ctx, ast.Store):
                 continue
@@ -406,6 +416,8 @@ class Analysis:
             return unk('subscript')
         if isinstance(par, ast.Subscript) and par.slice is n:
             return ok('used as a key')
+        if isinstance(par, ast.Tuple) and isinstance(self.kind(par, func, types), tuple):
+            return ok('component of a tuple (followed position by position)')
         if isinstance(par, (ast.Tuple, ast.List)):
             return ok('stored as an element') if k == SET else bad('tainted order embedded in a sequence')
         if isinstance(par, ast.Dict):
